@@ -82,6 +82,64 @@ func HLongString() {
 	checkEncode(v, v, gen.MustBuild(v))
 }
 
+// HBytesBeforeLink: a bytes node whose slice has spare capacity (as slices cut from a larger
+// buffer do), emitted right before a link and again after it: the encoder reads its input and
+// leaves it alone — the output is canonical, a second Encode gives the same bytes, and the
+// nodes still hold what they held.
+func HBytesBeforeLink() {
+	blen := 1 + nd.Choose("blen", 2)
+	backing := make([]byte, blen, 96)
+	content := nd.Bytes("b", blen)
+	copy(backing, content)
+	bn := basicnode.NewBytes(backing)
+	d := nd.Bytes("d", 2)
+	l := lsys.V1Link(0x71, 0, d)
+	bv := refval.MkBytes(content)
+	lv := refval.MkLink(l.Bytes())
+	var n datamodel.Node
+	var v *refval.V
+	mk := func(nb datamodel.NodeBuilder, fill func(datamodel.NodeBuilder)) datamodel.Node {
+		fill(nb)
+		return nb.Build()
+	}
+	switch nd.Choose("form", 2) {
+	case 0: // [B, link, B]
+		v = refval.MkList(bv, lv, bv)
+		n = mk(basicnode.Prototype.List.NewBuilder(), func(nb datamodel.NodeBuilder) {
+			la, _ := nb.BeginList(3)
+			la.AssembleValue().AssignNode(bn)
+			la.AssembleValue().AssignLink(l)
+			la.AssembleValue().AssignNode(bn)
+			la.Finish()
+		})
+	default: // {"a": B, "b": link}
+		v = refval.MkMap([]string{"a", "b"}, []*refval.V{bv, lv})
+		n = mk(basicnode.Prototype.Map.NewBuilder(), func(nb datamodel.NodeBuilder) {
+			ma, _ := nb.BeginMap(2)
+			va, _ := ma.AssembleEntry("a")
+			va.AssignNode(bn)
+			va, _ = ma.AssembleEntry("b")
+			va.AssignLink(l)
+			ma.Finish()
+		})
+	}
+	var b1, b2 bytes.Buffer
+	nd.Assert(dagcbor.Encode(n, &b1) == nil, "encodes")
+	want := refcbor.Encode(nil, v)
+	nd.Assert(nd.EqBytes(b1.Bytes(), want), "encoder output is the canonical DAG-CBOR byte string")
+	nd.Assert(refval.Equal(refval.Of(n), v), "encoding leaves the encoded node as it was")
+	nd.Assert(dagcbor.Encode(n, &b2) == nil, "encodes again")
+	nd.Assert(nd.EqBytes(b2.Bytes(), want), "a second Encode of the same node gives the same bytes")
+	nd.Reach("end")
+}
+
+// HScale: concrete values large in one dimension (lists of 1100 bytes / links / containers /
+// scalars, a wide map inserted in descending order, deep nesting, multi-byte keys): one path each.
+func HScale() {
+	v := gen.Scale(nd.Choose("case", gen.ScaleCases), nd.Param("N", 1100))
+	checkEncode(v, v, gen.MustBuild(v))
+}
+
 // HWideMap: maps wider than 12 entries (where sort.Slice leaves insertion sort for quicksort) with
 // keys of mixed lengths; a few insertion orders; values symbolic bytes.
 func HWideMap() {
